@@ -27,6 +27,8 @@ Proof.
   destruct (plan_exp_shape _ _ Hx) as (ce&Hce&H).
   destruct (i_exp _ I) as (e&ce'&He&Hce'&L&De&Dce&Ne&Nce). rewrite Hce in Hce'. inversion Hce'; subst ce'.
   destruct (H Nce) as [(add&->)|[(st&->&NN)|[(s&cs'&Hs&->)|[->|(r&(B1&B2)&Hr)]]]]; unfold write_ok; cbn [fst]; auto.
+  - split; [exact NN|]. exists e. split; [exact He|]. destruct L as (R&E&_). split; [exact R|].
+    intros Q C Rs. rewrite <- (E Q) in *. eapply plan_exp_settled; eauto.
   - apply (keep_status_ok w s _ I Hs); reflexivity.
   - assert (RO : req_ok w r).
     { split.
@@ -56,7 +58,8 @@ Proof.
   - rewrite P in Hx. destruct Hx as [<-|[<-|[]]]; exact Logic.I.
   - destruct (tlag_find _ _ _ _ (i_tlag _ I) F) as (t'&F'&(_&R&E&_)).
     unfold write_ok. cbn [fst]. exists t'. split; [exact F'|]. split; [exact R|].
-    intros Q k Kk Hk. rewrite <- (E Q) in Hk. now apply K.
+    intros Q. rewrite <- (E Q). split; [exact K|].
+    destruct (plan_trial_good _ _ _ _ _ _ _ _ _ Hx) as (t0&F0&G0). rewrite F in F0. inversion F0; subst t0. exact G0.
 Qed.
 
 (* ------------------------------------------------------------------ steps *)
@@ -66,6 +69,7 @@ Lemma evolves_store_eq w w' :
   evolves w w'.
 Proof.
   intros E1 E2 E3 E4 E5. constructor; rewrite ?E1, ?E2, ?E3, ?E4, ?E5; auto using tlag_refl; try lia.
+  - intros e H. exists e. auto using ele_refl.
   - intros e H. exists e. auto using ele_refl.
   - intros s H. exists s. auto using sle_refl.
 Qed.
@@ -94,8 +98,9 @@ Proof. intros (A&B&C). destruct c; assumption. Qed.
 
 Lemma evolves_trans a b c : evolves a b -> evolves b c -> evolves a c.
 Proof.
-  intros [A1 A2 A3 A4 A5] [B1 B2 B3 B4 B5]. constructor; [congruence| | |eapply tlag_trans; eauto|lia].
+  intros [A1 A2 A2' A3 A4 A5] [B1 B2 B2' B3 B4 B5]. constructor; [congruence| | | |eapply tlag_trans; eauto|lia].
   - intros e' He'. destruct (B2 _ He') as (e&He&L). destruct (A2 _ He) as (e0&He0&L0). exists e0. split; [exact He0|eapply ele_trans; eauto].
+  - intros e He. destruct (A2' _ He) as (e1&He1&L1). destruct (B2' _ He1) as (e2&He2&L2). exists e2. split; [exact He2|eapply ele_trans; eauto].
   - intros s Hs. destruct (A3 _ Hs) as (s1&Hs1&L1). destruct (B3 _ Hs1) as (s2&Hs2&L2). exists s2. split; [exact Hs2|eapply sle_trans; eauto].
 Qed.
 
@@ -147,17 +152,24 @@ Proof.
     split; [eapply InvS_frame; [|exact I]; core|eapply InvP_frame; [| |exact P]; [core|side]].
   - (* EarlyStop *)
     destruct (find_trial t (w_trials w)) as [tr|] eqn:F; [|split; [split; assumption|apply evolves_refl]].
-    destruct (c_es (w_cfg w) && t_is tr TCreated && negb (t_completed tr) && negb (t_deleting tr)); [|split; [split; assumption|apply evolves_refl]].
+    destruct (c_es (w_cfg w) && t_is tr TCreated && negb (t_completed tr) && negb (t_deleting tr)) eqn:EG; [|split; [split; assumption|apply evolves_refl]].
     set (w1 := match v, db_get t (w_db w) with Some z, None => set_db w (w_db w ++ [(t, Some z)]) | _, _ => w end).
     assert (C1 : core_eq w w1) by (unfold w1; destruct v, (db_get t (w_db w)); core).
     assert (S1 : pendings_eq w w1) by (unfold w1; destruct v, (db_get t (w_db w)); side).
     assert (I1 : InvS w1) by (eapply InvS_frame; eauto).
     assert (P1 : InvP w1) by (eapply InvP_frame; eauto).
     assert (F1 : find_trial t (w_trials w1) = Some tr) by (destruct C1 as (_&_&_&->&_); exact F).
-    edestruct (trial_update_inv w1 t) as [I2 E2]; [exact I1|exact F1| | | |split; [split; [exact I2|]|]]; cbn; auto.
-    + repeat split; cbn; auto; try lia. intros k K Hk. unfold t_is in *. cbn [t_conds]. now apply has_cond_app_l.
-    + eapply InvP_mono; [exact E2| | | |exact P1]; reflexivity.
-    + eapply evolves_trans; [apply evolves_core; exact C1|exact E2].
+    assert (NC : t_completed tr = false).
+    { match goal with H : _ && negb (t_completed tr) && _ = true |- _ => apply andb_true_iff in H as [H _]; apply andb_true_iff in H as [_ H]; now apply negb_true_iff in H end. }
+    edestruct (trial_update_inv w1 t) as [I2 E2]; [exact I1|exact F1| | | | |split; [split; [exact I2|]|]]; cbn; auto.
+    all: try (repeat split; cbn; auto; try lia; intros k K Hk; unfold t_is in *; cbn [t_conds]; now apply has_cond_app_l).
+    all: try (eapply InvP_mono; [exact E2| | | |exact P1]; reflexivity).
+    all: try (eapply evolves_trans; [apply evolves_core; exact C1|exact E2]).
+    (* the early-stopped trial is not Succeeded *)
+    unfold tgood, good_conds. cbn [t_conds t_obs]. intro S. exfalso.
+    apply not_completed_parts in NC as (S0&_). unfold t_is in S0.
+    unfold has_cond in S. rewrite get_app in S. unfold has_cond in S0.
+    destruct (get_cond (t_conds tr) TSucceeded); [congruence|]. cbn in S. discriminate.
   - (* DeployAvailable *)
     destruct (i_dep (w_infra w)); [|split; [split; assumption|apply evolves_refl]].
     split; [|apply evolves_store_eq; reflexivity].
@@ -165,32 +177,33 @@ Proof.
   - (* SyncExp *)
     split; [|apply evolves_store_eq; reflexivity].
     split; [|eapply InvP_mono; [apply evolves_store_eq; reflexivity| | | |exact P]; reflexivity].
-    destruct I as [A B C D F G H J]. constructor; cbn; auto.
+    destruct I as [A B C D F G H J K]. constructor; cbn; auto.
     destruct B as (e&ce&He&Hce&L&De&Dce&Ne&Nce). exists e, e. split; [exact He|]. split; [exact He|]. split; [apply ele_refl|]. auto.
   - (* SyncSug *)
     split; [|apply evolves_store_eq; reflexivity].
     split; [|eapply InvP_mono; [apply evolves_store_eq; reflexivity| | | |exact P]; reflexivity].
-    destruct I as [A B C D F G H J]. constructor; cbn; auto.
+    destruct I as [A B C D F G H J K]. constructor; cbn; auto.
     destruct (w_sug w) as [s|]; [|tauto]. destruct H as (W0&C0&R0&In0&_).
     split; [exact W0|]. split; [exact C0|]. split; [exact R0|]. split; [exact In0|]. split; [apply sle_refl|]. auto.
   - (* SyncTrials *)
     split; [|apply evolves_store_eq; reflexivity].
     split; [|eapply InvP_mono; [apply evolves_store_eq; reflexivity| | | |exact P]; reflexivity].
-    destruct I as [A B C D F G H J]. constructor; cbn; auto using tlag_refl.
+    destruct I as [A B C D F G H J K]. constructor; cbn; auto using tlag_refl.
   - (* UserRaiseMax *)
     destruct (w_exp w) as [e|] eqn:He; [|split; [split; assumption|apply evolves_refl]].
     destruct (e_max e) as [m|] eqn:Em; [|split; [split; assumption|apply evolves_refl]].
-    destruct ((m <? n) && negb (e_deleting e)) eqn:Eg; [|split; [split; assumption|apply evolves_refl]].
-    apply andb_true_iff in Eg as [Lt Nd]. apply Z.ltb_lt in Lt. apply negb_true_iff in Nd.
+    destruct ((m <? n) && negb (e_deleting e) && (negb (e_completed (e_st e)) || restartable (w_cfg w) (e_st e))) eqn:Eg; [|split; [split; assumption|apply evolves_refl]].
+    apply andb_true_iff in Eg as [Eg _]. apply andb_true_iff in Eg as [Lt Nd]. apply Z.ltb_lt in Lt. apply negb_true_iff in Nd.
     set (e' := {| e_max := Some n; e_fin := e_fin e; e_deleting := e_deleting e; e_st := e_st e; e_rv := S (e_rv e) |}).
     assert (L : ele e e') by (repeat split; cbn; [lia|lia|rewrite Em; cbn; lia]).
     assert (EV : evolves w (set_exp w (Some e'))).
     { constructor; cbn; auto using tlag_refl; try lia.
       - intros e1 [= <-]. eauto.
+      - intros e1 He1. rewrite He in He1. inversion He1; subst e1. eauto.
       - intros s Hs. exists s. auto using sle_refl. }
     split; [|exact EV].
     split; [|eapply InvP_mono; [exact EV| | | |exact P]; reflexivity].
-    destruct I as [A B C D F G H J]. constructor; cbn; auto.
+    destruct I as [A B C D F G H J K]. constructor; cbn; auto.
     + destruct B as (e0&ce&He0&Hce&L0&D0&D1&N0&N1). rewrite He in He0. inversion He0; subst e0.
       exists e', ce. split; [reflexivity|]. split; [exact Hce|]. split; [eapply ele_trans; eauto|]. auto.
     + destruct J as (J1&J2&J3). repeat split; auto. intros e1 m1 [= <-] [= <-]. specialize (J3 _ _ He Em). lia.
